@@ -71,7 +71,7 @@ def _gen_setup(rng, at, nshared):
             live.append(len(ops) - 1)
 
 
-def _thread_op(rng, at, knobs, shared, own, operator, all_ops=None, me=None):
+def _thread_op(rng, at, knobs, shared, own, operator, all_ops=None, me=None, slots=None):
     if operator and rng.random() < 0.6:
         r = rng.random()
         if r < 0.4:
@@ -112,7 +112,9 @@ def _thread_op(rng, at, knobs, shared, own, operator, all_ops=None, me=None):
     elif r < 0.56:
         op = W.gen_restart(rng, pick)
     else:
-        op = W.gen_read(rng, pick)
+        allowed = set(live)
+        view = [x if i in allowed else None for i, x in enumerate(slots[:len(all_ops or [])])] if slots is not None else None
+        op = W.gen_read(rng, pick, view)
         if op.get("other") is not None:
             op["other"] = rng.choice(live)
     if rng.random() < knobs.get("long_rate", 0.0):
@@ -166,7 +168,8 @@ def ref_generate(seed, cfg):
         r_sync = rng.random()
         if shared and r_sync < 0.3:
             sync_op = W.gen_read(rng, [rng.choice(shared)])
-            sync_op.pop("other", None) if sync_op["op"] != "cmp" else None
+            if sync_op["op"] not in ("cmp", "lookup"):
+                sync_op.pop("other", None)
         elif shared and r_sync < 0.7:
             # the same derivation of the same shared object in every thread: the LRUs hand the very
             # same result object to all of them while each is still deriving / observing it
@@ -186,7 +189,7 @@ def ref_generate(seed, cfg):
             if j == 0 and sync_op is not None and operator_t != t:
                 op = copy.deepcopy(sync_op)
             else:
-                op = _thread_op(rng, at, knobs, shared, own, operator_t == t, ops, t)
+                op = _thread_op(rng, at, knobs, shared, own, operator_t == t, ops, t, slots)
             op["thread"] = t
             idx = len(ops)
             ops.append(op)
